@@ -372,6 +372,23 @@ def refresh_in_place(dst, src, counter):
     return src
 
 
+def permute_in_place(o, counter):
+    """Roll the content of every writeable ndarray with >= 2 distinct values by one place along its last axis, in place:
+    same objects, same shape, dtype, minimum, maximum, sum - other content."""
+    if isinstance(o, np.ndarray):
+        if o.flags.writeable and o.ndim >= 1 and o.shape[-1] >= 2:
+            rolled = np.roll(o, 1, axis=-1)
+            if not same_result(rolled, o):
+                np.copyto(o, rolled)
+                counter[0] += 1
+    elif isinstance(o, (list, tuple)):
+        for x in o:
+            permute_in_place(x, counter)
+    elif isinstance(o, dict):
+        for x in o.values():
+            permute_in_place(x, counter)
+
+
 def scribble(o):
     """Overwrite every writeable ndarray inside a result (in place); returns how many were overwritten."""
     n = 0
@@ -469,6 +486,27 @@ def one_call_body(ctx, case):
                     got = quiet(call, name, fn, a5r, k5r)
                     ctx.require(same_result(got, want), "%s: called again with the same argument objects after the caller refreshed their content in place, it does not return what fresh arrays with that content give (something is remembered by object identity)" % name)
                     ctx.classes["arguments_refreshed_in_place"] += 1
+        # the same argument objects with their content PERMUTED in place (a reference image rolled by a pixel, a frame
+        # buffer shifted): every summary of the arrays (shape, dtype, min, max, sum) is unchanged, so only a function that
+        # remembers an argument by identity plus such a summary can tell - and must not
+        if variant != "readonly":
+            a7, k7 = builder(A(seed, variant))
+            np.random.seed(seed % (2**32))
+            quiet(call, name, fn, a7, k7)
+            n_perm = [0]
+            permute_in_place((tuple(x for i, x in enumerate(a7) if i != OUT_PARAMS.get(name, -1)), k7), n_perm)
+            if n_perm[0]:
+                try:
+                    np.random.seed(seed % (2**32))
+                    got = quiet(call, name, fn, a7, k7)
+                    np.random.seed(seed % (2**32))
+                    want = quiet(call, name, fn, *copy.deepcopy((a7, k7)))
+                except Exception:
+                    got = want = None                            # the permuted content is not a valid input for this function
+                    ctx.classes["permuted_content_rejected"] += 1
+                if want is not None:
+                    ctx.require(same_result(got, want), "%s: called again with the same argument objects after the caller permuted their content in place (same shape, dtype, min, max, sum), it does not return what fresh arrays with that content give (something is remembered by object identity)" % name)
+                    ctx.classes["arguments_permuted_in_place"] += 1
     finally:
         np.random.set_state(st_np)
         random.setstate(st_py)
